@@ -1,10 +1,14 @@
 #!/bin/sh
-# Build the framework from files on disk only (offline). Pre-compiles every test binary once so that the
-# first check does not pay for compiling portbase's dependencies.
+# Build the framework from files on disk only (offline). Pre-compiles the test binaries of all integrated checks
+# once so that the first check does not pay for compiling portbase's dependencies.
 set -e
 cd "$(dirname "$0")/harness"
 export GOFLAGS=-mod=mod GOPROXY=off GOSUMDB=off GOTOOLCHAIN=local
 mkdir -p ../.build
-go vet -tags verif ./internal/... >/dev/null 2>&1 || true
-go test -tags verif -count=1 -run '^$' ./... >/dev/null
+pkgs=""
+for id in $(cat ../lib/ready.txt); do
+  d="./c$(echo "$id" | tr -d 'C')"
+  [ -d "$d" ] && pkgs="$pkgs $d"
+done
+go test -tags verif -count=1 -run '^$' ./internal/... ./modsim/... $pkgs >/dev/null
 echo "setup ok"
